@@ -181,6 +181,21 @@ def layout_background_layer(box, page, resolution, image, size, clip, repeat,
             percentage(size_height, positioning_height),
             positioning_width, positioning_height)
 
+    repeat_x, repeat_y = repeat
+
+    if repeat_x == 'round' and image_width:
+        n_repeats = max(1, round(positioning_width / image_width))
+        new_width = positioning_width / n_repeats
+        if repeat_y != 'round' and size[1] == 'auto':
+            image_height *= new_width / image_width
+        image_width = new_width
+    if repeat_y == 'round' and image_height:
+        n_repeats = max(1, round(positioning_height / image_height))
+        new_height = positioning_height / n_repeats
+        if repeat_x != 'round' and size[0] == 'auto':
+            image_width *= new_height / image_height
+        image_height = new_height
+
     origin_x, position_x, origin_y, position_y = position
     ref_x = positioning_width - image_width
     ref_y = positioning_height - image_height
@@ -190,23 +205,11 @@ def layout_background_layer(box, page, resolution, image, size, clip, repeat,
         position_x = ref_x - position_x
     if origin_y == 'bottom':
         position_y = ref_y - position_y
-
-    repeat_x, repeat_y = repeat
-
+    # Ignore background-position for rounded dimensions
     if repeat_x == 'round' and image_width:
-        n_repeats = max(1, round(positioning_width / image_width))
-        new_width = positioning_width / n_repeats
-        position_x = 0  # Ignore background-position for this dimension
-        if repeat_y != 'round' and size[1] == 'auto':
-            image_height *= new_width / image_width
-        image_width = new_width
+        position_x = 0
     if repeat_y == 'round' and image_height:
-        n_repeats = max(1, round(positioning_height / image_height))
-        new_height = positioning_height / n_repeats
-        position_y = 0  # Ignore background-position for this dimension
-        if repeat_x != 'round' and size[0] == 'auto':
-            image_width *= new_height / image_height
-        image_height = new_height
+        position_y = 0
 
     return BackgroundLayer(
         image=image,
